@@ -64,11 +64,13 @@ def support_mask(run, cf, rule='R12.support'):
     from .. import mini
     from ..rules import nf
     G = cf.posparams[0]
-    mname = None
+    mname = marg = None
     for c in ast.walk(cf.node):
-        if isinstance(c, ast.Call) and norm(c.func).split('.')[-1] in ('repeat', 'repeat_interleave') and c.args and isinstance(c.args[0], ast.Name):
-            mname = c.args[0].id
-    if mname is None:
+        if isinstance(c, ast.Call) and norm(c.func).split('.')[-1] in ('repeat', 'repeat_interleave') and c.args \
+                and not (isinstance(c.func, ast.Attribute) and norm(c.func.value) == G):
+            marg = c.args[0]                   # the mask itself: a name, or the expression that computes it
+            mname = norm(marg)
+    if marg is None:
         run.undecided(rule, cf, cf.name, 'no mask expanded with repeat(mask, 2) found')
         return
     bad = None
@@ -133,10 +135,10 @@ def support_mask(run, cf, rule='R12.support'):
             res = []
             # the value of the mask after the last statement
             mini.execute(cf.node, {G: None}, sub=sub, call=call, attr=attr, on_store=on_store,
-                         body=body + [ast.Return(value=ast.Name(id=mname, ctx=ast.Load()))], result=res)
+                         body=body + [ast.Return(value=marg)], result=res)
             if not res:
                 raise Undecidable('mask value not produced')
-            val = heap.get(mname, res[0])
+            val = heap.get(mname, res[0]) if isinstance(marg, ast.Name) else res[0]
             if val is _UNSET:
                 bad = ((x, z), 'never assigned (uninitialised memory)')
                 break
